@@ -927,6 +927,73 @@ theorem C13_history_shared_partial {α} (o : Opts) (d1 d2 : Desc) (s1 s2 : Optio
         · rintro ⟨p1, p2, p3⟩; exact ⟨(hdue.mpr ⟨p1, p2⟩).1, (hdue.mpr ⟨p1, p2⟩).2, p3⟩
       · simp [hf]
 
+/-- **What a remembered verdict is filed under.**  With the cache class extracted from `conversion.py`, two callables share a
+cache entry exactly when they have the same bound target (the same function object, possibly bound to different
+receivers) — never merely because they share a code object (closures of one factory, wrappers of one decorator). -/
+theorem C13_cache_key_is_bound_target (i1 i2 : Ident) : cacheKey i1 = cacheKey i2 ↔ i1.func = i2.func := by
+  simp [cacheKey, allowlistCacheKind, cacheKeyDropsReceiver]
+
+private theorem contains_cons_ne (st : CacheState) (k k' : CacheKey) (ok ok' : Nat) (h : k ≠ k') :
+    ((k, ok) :: st).contains (k', ok') = st.contains (k', ok') := by
+  have hne : (k', ok') ≠ (k, ok) := by
+    intro e
+    exact h (Prod.mk.inj e).1.symm
+  simp [hne]
+
+private theorem store_contains {α} (c : Callable α) (ok ok' : Nat) (ids : List Ident) (st : CacheState) (key : CacheKey)
+    (h : ∀ i ∈ ids, cacheKey i ≠ key) :
+    (c.store ok ids st).contains (key, ok') = st.contains (key, ok') := by
+  induction c generalizing ids st with
+  | base d s b =>
+    cases ids with
+    | nil => simp [Callable.store]
+    | cons i is =>
+      simp only [Callable.store]
+      split
+      · exact contains_cons_ne st _ _ _ _ (h i (by simp))
+      · rfl
+  | part d a k0 inner ih =>
+    cases ids with
+    | nil => simp only [Callable.store]; exact ih [] st (by simp)
+    | cons i is =>
+      simp only [Callable.store]
+      rw [ih is _ (fun j hj => h j (by simp [hj]))]
+      split
+      · exact contains_cons_ne st _ _ _ _ (h i (by simp))
+      · rfl
+
+private theorem load_congr {α} (c : Callable α) (ok : Nat) (ids : List Ident) (st st' : CacheState)
+    (h : ∀ i ∈ ids, st'.contains (cacheKey i, ok) = st.contains (cacheKey i, ok)) :
+    c.load st' ok ids = c.load st ok ids := by
+  induction c generalizing ids with
+  | base d s b =>
+    cases ids with
+    | nil => rfl
+    | cons i is => simp only [Callable.load]; rw [h i (by simp)]
+  | part d a k0 inner ih =>
+    cases ids with
+    | nil => simp only [Callable.load]; rw [ih [] (by simp)]
+    | cons i is =>
+      simp only [Callable.load]
+      rw [h i (by simp), ih is (fun j hj => h j (by simp [hj]))]
+
+/-- **A remembered verdict is only ever reused for the same callable.**  Whatever a wrapped call on one callable does to the
+negative cache, the cache facts loaded for any callable none of whose levels has the same bound target are unchanged — for
+every context, options value, argument list and partial chain. -/
+theorem C13_verdict_only_for_same_target {α} (c1 c2 : Callable α) (ids1 ids2 : List Ident) (st : CacheState)
+    (env : Env) (o : Opts) (ok ok' : Nat) (args : List α) (kw : Option (Kw α))
+    (hdisj : ∀ i ∈ ids1, ∀ j ∈ ids2, i.func ≠ j.func) :
+    c2.load ((call env o (c1.load st ok ids1) args kw).2.store ok ids1 st) ok' ids2 = c2.load st ok' ids2 := by
+  apply load_congr
+  intro j hj
+  apply store_contains
+  intro i hi e
+  exact hdisj i hi j hj ((C13_cache_key_is_bound_target i j).mp e)
+
+/-! Non-vacuity: two closures of one factory (same code object, different function objects) never share an entry. -/
+example : cacheKey ⟨1, 1, some 7⟩ ≠ cacheKey ⟨2, 2, some 7⟩ := by decide
+example : cacheKey ⟨1, 9, some 7⟩ = cacheKey ⟨2, 9, some 7⟩ := by decide
+
 /-- The counterexample behind `C13_history_shared_partial`: a method whose owner is a TestCase subclass is remembered, and the
 same function bound to an ordinary instance is then no longer converted. -/
 example :
